@@ -11,7 +11,7 @@ import time
 from . import kernel
 
 
-def minimise(mod, case, tag, budget=400, wall=60.0):
+def minimise(mod, case, tag, budget=400, wall=45.0):
     t0 = time.time()
     tried = [0]
     if getattr(mod, 'USES_CHILD', False):
